@@ -10,6 +10,7 @@ from typing import Callable, Dict, List, Optional
 from vlib.core.ctx import stable_hash
 from vlib.e1 import monitors as Mon
 from vlib.e1 import monitors2 as Mon2
+from vlib.e1 import monitors3 as Mon3
 from vlib.e1 import phases
 from vlib.gen import wfgen
 from vlib.models import gtmodel
@@ -24,6 +25,7 @@ MONITORS = {
     'c45': Mon2.C45AbsTriggers, 'c25': Mon2.C25DataStore,
     'c27': Mon2.C27Reload, 'c33': Mon2.C33Xtriggers,
     'c29': Mon2.C29Set, 'c30': Mon2.C30Remove,
+    'c28': Mon3.C28Trigger,
 }
 
 
